@@ -46,6 +46,9 @@ def outcomeOfIn (engine : String) (readTimeoutMs : Nat) (eps : List EpSpec) (i :
   | none => .failBefore false
   | some e =>
     if e.opened || e.prefail ≥ Olla.Gen.Retry.engineBreakerThreshold then .skip
+    -- a status code below 100 is accepted by net/http's client but rejected by ResponseWriter.WriteHeader
+    -- with a panic: nothing reaches the client, the attempt is recorded as failed, the handler dies
+    else if e.kind == "ok" && e.resp.status < 100 then .failBefore false
     else if e.kind == "pause" then
       (if readTimeoutMs == 0 || e.stallMs < readTimeoutMs then .ok e.resp
        else .failAfter e.resp e.k false)
